@@ -372,7 +372,9 @@ fn check_expr(e: &E, all_inputs: &[Vec<char>], want_bad: bool) -> Checked {
     let mut parser = build(e);
     let exempt_soft_position = e.has_non_rewinding_mapper();
     for inp in all_inputs {
-        for pos in 0..=inp.len() {
+        // long inputs are run from the first three and the last three positions only
+        let positions: Vec<usize> = if inp.len() > 12 { (0..3).chain(inp.len() - 2..=inp.len()).collect() } else { (0..=inp.len()).collect() };
+        for pos in positions {
             let mut model = Model::new(inp);
             let expected = model.eval(e, pos);
             if expected == R::Bottom {
@@ -470,6 +472,32 @@ fn direct_children(e: &E) -> Vec<E> {
     out
 }
 
+/// Inputs far longer than the exhaustive ones: runs of one letter, alternations (element / delimiter lists with and
+/// without a trailing delimiter), a different last or first letter; lengths around 8, 16, 64, 256 and 1000.
+fn long_inputs() -> Vec<Vec<char>> {
+    let mut out = vec![];
+    for n in [8usize, 9, 16, 17, 63, 64, 65, 255, 256, 257, 1000] {
+        let rep = |pat: &str, len: usize| -> Vec<char> { pat.chars().cycle().take(len).collect() };
+        out.push(rep("a", n));
+        out.push(rep("ab", n));
+        out.push(rep("ba", n));
+        out.push(rep("abc", n));
+        let mut v = rep("a", n - 1);
+        v.push('b');
+        out.push(v);
+        let mut v = rep("a", n - 1);
+        v.push('c');
+        out.push(v);
+        let mut v = vec!['b'];
+        v.extend(rep("a", n - 1));
+        out.push(v);
+        let mut v = rep("ab", n - 1);
+        v.push('c');
+        out.push(v);
+    }
+    out
+}
+
 static SPACE: OnceLock<Space> = OnceLock::new();
 
 pub fn worker(case: &Value) -> Value {
@@ -478,7 +506,7 @@ pub fn worker(case: &Value) -> Value {
     let lo = case["lo"].as_u64().unwrap();
     let hi = case["hi"].as_u64().unwrap();
     let max_len = case["maxlen"].as_u64().unwrap() as usize;
-    let all_inputs = inputs(max_len);
+    let all_inputs = if case["long"].as_bool().unwrap_or(false) { long_inputs() } else { inputs(max_len) };
     let mut n = 0u64;
     let mut nontrivial = 0u64;
     let mut bottoms = 0u64;
@@ -537,10 +565,11 @@ pub fn drive(tier: &str) -> i32 {
     pool.timeout_ms = 60_000;
     let space = Space::new();
     // (depth, max input length); smallest first
+    // max input length 0 stands for the ladder of long inputs (8 .. 1000 letters)
     let plan: Vec<(u32, usize)> = if tier == "quick" {
-        vec![(1, 4), (2, 4), (3, 3)]
+        vec![(1, 4), (2, 4), (1, 0), (2, 0), (3, 3)]
     } else {
-        vec![(1, 6), (2, 6), (3, 5), (4, 3)]
+        vec![(1, 6), (2, 6), (1, 0), (2, 0), (3, 0), (3, 5), (4, 3)]
     };
     let mut completed: Vec<Value> = vec![];
     let mut heads: BTreeMap<String, u64> = BTreeMap::new();
@@ -565,7 +594,7 @@ pub fn drive(tier: &str) -> i32 {
             }
             let lo = k * chunk;
             dispatched = lo;
-            Some(json!({"depth": depth, "lo": lo, "hi": (lo + chunk).min(total), "maxlen": max_len}))
+            Some(json!({"depth": depth, "lo": lo, "hi": (lo + chunk).min(total), "maxlen": max_len, "long": max_len == 0}))
         });
         let mut done_here = 0u64;
         run.run_pool(&pool, cases, |_, _, case, v| {
@@ -605,7 +634,7 @@ pub fn drive(tier: &str) -> i32 {
         }
     }
     let mut ev = Evidence::new("model_checking");
-    ev.set("rule", "expressions: depth 1 = 8 primitives; depth d = each of the combinator templates (every combinator of the library, binary/ternary ones with the other operands drawn from the leaf sets) applied to every expression of depth d-1, enumerated by index without repeats; each is built from the real rusty_pc combinators and run on every string over {a,b,c} up to the length bound at every start position; compared with the denotational model (result kind, value, error value, position after Ok and after soft failure). Non-trivial = some sub-parser consumed input during the run. Pairs for which the model says a repetition's element/delimiter succeeds without consuming are not run (documented precondition) and counted as skipped.");
+    ev.set("rule", "expressions: depth 1 = 8 primitives; depth d = each of the combinator templates (every combinator of the library, binary/ternary ones with the other operands drawn from the leaf sets) applied to every expression of depth d-1, enumerated by index without repeats; each is built from the real rusty_pc combinators and run on every string over {a,b,c} up to the length bound at every start position, and (max_input_len 0 in bounds_completed) on a ladder of 88 long inputs of 8 .. 1000 letters (runs of one letter, alternations with and without a trailing delimiter, a different first or last letter) from the first three and the last three positions; compared with the denotational model (result kind, value, error value, position after Ok and after soft failure). Non-trivial = some sub-parser consumed input during the run. Pairs for which the model says a repetition's element/delimiter succeeds without consuming are not run (documented precondition) and counted as skipped.");
     ev.set("exhaustive", !run.capped);
     ev.set("bounds_completed", json!(completed));
     ev.set("states", exprs_done);
